@@ -469,6 +469,39 @@ pub fn history_case<F: MonF>(cx: &mut Cx, idx: u64, seed: u64) {
     let lmax = HIST_CLASS_LMAX[class];
     // now and then a very long history of tiny products on one object: a call counter or a generation stamp kept in a
     // 16-bit integer wraps on the way
+    // now and then a history of large transforms whose size halves and doubles between consecutive calls (a table or
+    // cache shared by the forward and the inverse transform of one size is reused by the other direction exactly then)
+    if class == 2 && (idx / 8) % 24 == 3 {
+        cx.rep.inc("history_twin_sequences_halving_large");
+        let mut lived = call!(cx, "new", FFT::<F>::new());
+        let top = if rng.chance(1, 2) { 1usize << 16 } else { 1usize << 15 };
+        for (step, n) in [top, top / 2, top / 4, top / 2, top, top / 2].iter().enumerate() {
+            // product length in (n/2, n]: la + lb - 1 = n - r
+            let total = n - rng.usize_below(n / 8) + 1;
+            let la = (total / 2 + rng.usize_below(total / 4)).max(1);
+            let lb = (total - la).max(1);
+            let m = match max_mag(p, la, lb) {
+                Some(m) => m.min(100),
+                None => continue,
+            };
+            let a = gen_vec(&mut rng, la, m, 4);
+            let b = gen_vec(&mut rng, lb, m, 4);
+            if !inside(p, la, lb, mag(&a), mag(&b)) {
+                continue;
+            }
+            let pr = Pair { a, b, pa: 4, pb: 4, ma: m, mb: m, mode: "halving" };
+            let want = oracle::conv(&pr.a, &pr.b);
+            let gl = call!(cx, "multiply", lived.multiply(&pr.a, &pr.b));
+            let gf = {
+                let mut f = call!(cx, "new", FFT::<F>::new());
+                call!(cx, "multiply", f.multiply(&pr.a, &pr.b))
+            };
+            judge(cx, "multiply on the long-lived object (halving / doubling sizes)", &pr, &gl, &want, None);
+            lived_vs_fresh(cx, "multiply", &pr, &gl, &gf, &want);
+            cx.history.push(format!("step {}: multiply {}x{} (n={})", step, la, lb, n));
+        }
+        return;
+    }
     let long = class == 1 && (idx / 8) % 16 == 1;
     let steps = if long {
         rng.range_usize(65_540, 65_700)
